@@ -7,7 +7,7 @@ use blots_core::environment::Environment;
 use blots_core::expressions::{
     evaluate_pairs, pairs_to_expr_with_comments, validate_portable_value,
 };
-use blots_core::formatter::format_statement;
+use blots_core::formatter::format_statement_preserving_comments;
 use blots_core::functions::{clear_function_call_stats, get_function_call_stats};
 use blots_core::heap::Heap;
 use blots_core::parser::{Rule, get_pairs};
@@ -282,10 +282,15 @@ fn run() -> ! {
                             .unwrap_or_default();
                         match inner_pair.as_rule() {
                             Rule::expression => {
+                                let original = inner_pair.as_str();
                                 match pairs_to_expr_with_comments(inner_pair.into_inner()) {
                                     Ok(expr) => {
-                                        let formatted =
-                                            format_statement(&expr, None, is_first_statement);
+                                        let formatted = format_statement_preserving_comments(
+                                            &expr,
+                                            original,
+                                            None,
+                                            is_first_statement,
+                                        );
                                         is_first_statement = false;
                                         formatted_output.push_str(&formatted);
                                         formatted_output.push_str(&eol_comment);
@@ -298,14 +303,19 @@ fn run() -> ! {
                                 }
                             }
                             Rule::output_declaration => {
+                                let original = inner_pair.as_str();
                                 match pairs_to_expr_with_comments(inner_pair.into_inner()) {
                                     Ok(inner_expr) => {
                                         // Wrap in Output expression
                                         let output_expr = Spanned::dummy(Expr::Output {
                                             expr: Box::new(inner_expr),
                                         });
-                                        let formatted =
-                                            format_statement(&output_expr, None, is_first_statement);
+                                        let formatted = format_statement_preserving_comments(
+                                            &output_expr,
+                                            original,
+                                            None,
+                                            is_first_statement,
+                                        );
                                         is_first_statement = false;
                                         formatted_output.push_str(&formatted);
                                         formatted_output.push_str(&eol_comment);
